@@ -16,6 +16,11 @@ def scan(repo="/repo"):
                 code = ln.split("//")[0]
                 if in_tests: continue
                 if re.search(r"\b(HashMap|HashSet)\b", code) and not re.search(r"Index(Map|Set)", code):
+                    c = code.strip()
+                    # declarations that create no container are not sites: imports, function signatures, and
+                    # parameters / fields of reference type (a borrowed view of a container that exists elsewhere)
+                    if re.match(r"(pub(\([a-z]+\))? )?use\b", c) or re.match(r"(pub(\([a-z]+\))? )?(async )?fn\b", c): continue
+                    if re.match(r"(pub(\([a-z]+\))? )?[a-z_][a-z0-9_]*: &", c): continue
                     out.append("%s: %s" % (os.path.relpath(p, repo), re.sub(r"\s+", " ", code.strip())))
     return sorted(set(out))
 
